@@ -452,6 +452,47 @@ VARIANTS = [
         ("task_manager.py", "self._tasks_by_owner.get(owner_id, set()).discard(t)", "self._tasks_by_owner.pop(owner_id, set()).discard(t)")]),
     V("silent-done-callback-guards-missing-owner", silent=["C09", "C14", "C08"], edits=[
         ("task_manager.py", "task.add_done_callback(lambda t: self._tasks_by_owner.get(owner_id, set()).discard(t))", "task.add_done_callback(lambda t: owner_id in self._tasks_by_owner and self._tasks_by_owner[owner_id].discard(t))")]),
+    # ------------------------------------------------------------------ round 6 (rules written after the sixth round of seeded changes)
+    V("c14-sync-start-marks-stopped-without-teardown", {"C14": "R10"}, edits=[
+        (S, "        try:\n            self._enter_states([self.machine])\n        finally:\n            self._is_processing = False\n",
+            "        try:\n            self._enter_states([self.machine])\n        except Exception:\n            self.status = 'stopped'\n            raise\n        finally:\n            self._is_processing = False\n")],
+      note="seed C14-d: stop() is a no-op afterwards, what the half-finished start created is never released"),
+    V("c14-async-start-marks-stopped-again", {"C14": "R10"}, edits=[
+        (I, "            await self.stop()\n            raise\n", "            self.status = 'stopped'\n            raise\n")],
+      note="the defect repaired in /repo 3f6a5b2"),
+    V("silent-async-start-stop-then-status", silent=["C14", "C10"], edits=[
+        (I, "            await self.stop()\n            raise\n", "            await self.stop()\n            self.status = 'stopped'\n            raise\n")],
+      note="the write follows the hand-over to stop(): redundant, harmless"),
+    V("c11-history-default-resolved-from-owner", {"C11": "R12"}, edits=[
+        (B, "            return resolve_target_state(target, reference)\n", "            return resolve_target_state(target, reference.parent or reference)\n")],
+      note="seed C11-d"),
+    V("c19-invoke-handler-guard-collected-per-action", {"C19": "R10"}, edits=[
+        (L, "                        actions.add(action_def.type)\n                LogicLoader._collect_guard_names(transition.guard_def, guards)\n",
+            "                        actions.add(action_def.type)\n                    LogicLoader._collect_guard_names(transition.guard_def, guards)\n")],
+      note="seed C19-d: a guarded handler without user actions never has its guard recorded"),
+    V("silent-invoke-handler-guard-collected-first", silent=["C19"], edits=[
+        (L, "            for transition in invoke_def.on_done + invoke_def.on_error:\n                for action_def in transition.actions:\n",
+            "            for transition in invoke_def.on_done + invoke_def.on_error:\n                LogicLoader._collect_guard_names(transition.guard_def, guards)\n                for action_def in transition.actions:\n"),
+        (L, "                        actions.add(action_def.type)\n                LogicLoader._collect_guard_names(transition.guard_def, guards)\n", "                        actions.add(action_def.type)\n")],
+      note="the collector call moved in front of the action loop: still once per transition"),
+    V("c20-null-on-entry-pruned", {"C20": "R5"}, edits=[
+        (M, "        for event, transitions_config in raw_on.items():\n", "        for event, transitions_config in raw_on.items():\n            if transitions_config is None and self.parent is None:\n                continue\n")],
+      note="seed C20-d in its smallest form: a forbidden entry dropped at parse time"),
+    V("c09-invoke-without-src-skipped", {"C09": "R12"}, edits=[
+        (M, "        for i_config in invoke_configs:\n", "        for i_config in invoke_configs:\n            if isinstance(i_config, dict) and (not i_config.get('src')):\n                continue\n")]),
+    V("c16-restored-history-through-a-set", {"C16": "R1"}, edits=[
+        (B, "for nid in node_ids if machine.get_state_by_id(nid)]", "for nid in map(str, set(node_ids)) if machine.get_state_by_id(nid)]")],
+      note="seed C16-d: the persisted order of the remembered nodes is replaced by hash order (lazy wrapper around a set)"),
+    V("c17-extractor-skips-final-states", {"C17": "R11"}, edits=[
+        (CX, "    if 'on' in node and isinstance(node['on'], dict):\n", "    if node.get('type') in ('final', 'history'):\n        return\n    if 'on' in node and isinstance(node['on'], dict):\n")],
+      note="seed C17-d"),
+    V("silent-extractor-shape-guard-clause", silent=["C17"], edits=[
+        (CX, "    for key in ('entry', 'exit'):\n        if key in node:\n            _extract_actions(node[key], actions)\n", "    if not isinstance(node, dict):\n        return\n    for key in ('entry', 'exit'):\n        if key in node:\n            _extract_actions(node[key], actions)\n")]),
+    V("c18-initial-inference-reads-unvalidated-child", {"C18": "R11"}, edits=[
+        (M, "if not (isinstance(child, dict) and child.get('type') == 'history')]", "if child.get('type') != 'history']")],
+      note="seed C18-d"),
+    V("silent-initial-inference-de-morgan", silent=["C18"], edits=[
+        (M, "if not (isinstance(child, dict) and child.get('type') == 'history')]", "if not isinstance(child, dict) or child.get('type') != 'history']")]),
     # ================================================================== must stay silent
     V("silent-normal-form", silent=ALL, edits=[], note="whole tree re-emitted by ast.unparse: formatting, comments and line numbers all change"),
     V("silent-rename-local", silent=["C01", "C03", "C05", "C09", "C10"], edits=[
